@@ -53,7 +53,7 @@ PROP = dict(
           "displayed rows, both readings accepted), its PctDelta = (new/old - 1)*100; (6) FormatText and FormatCSV do not "
           "panic, contain in order exactly one line/record per table row (first column = benchmark name), CSV mean columns "
           "show the means to 1e-5. Non-trivial = two configurations, >= 2 benchmark names, at least one (group, benchmark, unit) "
-          "with >= 4 values on both sides. Distinct = distinct case JSON (64-bit FNV), capped at 300000 per shard."),
+          "with >= 4 values on both sides. Classes include lines separated by single tabs and 60-75 benchmarks of 1e6-1e9 with the geomean row. Distinct = distinct case JSON (64-bit FNV), capped at 300000 per shard."),
     assumptions=[
         "math/big, strconv, math and encoding/csv of the Go standard library are correct (trusted by the reference)",
         "group names are rendered as 'label:value' pairs joined by one space (observed format, used only to identify rows of a group)",
